@@ -306,9 +306,6 @@ func stick[C any](core func(C, *kit.Case) (string, string)) func(C, *kit.Case) {
 	first := ""
 	return func(c C, cc *kit.Case) {
 		sig, msg := core(c, cc)
-		if os.Getenv("C18_DEBUG") != "" {
-			fmt.Fprintf(os.Stderr, "STICK first=%q sig=%q\n", first, sig)
-		}
 		if sig == "" {
 			return
 		}
